@@ -346,7 +346,11 @@ impl World {
                         if f[2] == "EGLD" {
                             acc.egld_balance.clone()
                         } else {
-                            acc.esdt.get_esdt_balance(f[2].as_bytes(), 0)
+                            // `TOKEN` or `TOKEN/nonce`
+                            let mut it = f[2].split('/');
+                            let t = it.next().unwrap();
+                            let n: u64 = it.next().map(|x| x.parse().unwrap()).unwrap_or(0);
+                            acc.esdt.get_esdt_balance(t.as_bytes(), n)
                         }
                     }
                 };
